@@ -192,7 +192,9 @@ func runHist(cfg *config) error {
 	}
 	defer srvNoGC.Stop()
 	rn := &hist.Runner{S: srv, ServerDoc: mode.twin == "nosnap" || mode.serverDoc, ServerDocSparse: mode.serverDoc, CacheOnly: mode.cacheOnly}
-	rnNoGC := &hist.Runner{S: srvNoGC}
+	// the twin without garbage collection evaluates the same server-side oracles: "the failure needs GC"
+	// must mean that the oracle that failed passes there
+	rnNoGC := &hist.Runner{S: srvNoGC, ServerDoc: rn.ServerDoc, ServerDocSparse: rn.ServerDocSparse, CacheOnly: rn.CacheOnly}
 	res := newResult("hist", cfg.seed)
 	r := rng.New(cfg.seed)
 	seen := distinct{}
@@ -226,7 +228,7 @@ func runHist(cfg *config) error {
 		}
 		return o, ps
 	}
-	signature := func(small *hist.History, kind string) map[string]any {
+	signature := func(small *hist.History, kind string, detail string) map[string]any {
 		sig := map[string]any{}
 		moved, asetAfterMove := false, false
 		for _, st := range small.Steps {
@@ -364,6 +366,22 @@ func runHist(cfg *config) error {
 			}
 			orderOnly = differ && sameBag
 		}
+		// a server-side rebuild (or a snapshot-fed replica) against the replica that applied every
+		// change: the two contents are in the problem's text
+		for _, sep := range []string{"   replay of every change: ", "   replica that applied every change one by one: "} {
+			if i := strings.Index(detail, sep); i >= 0 && !orderOnly {
+				left, right := detail[:i], detail[i+len(sep):]
+				if j := strings.Index(left, "{"); j >= 0 {
+					left = left[j:]
+					canon := func(s string) string {
+						b := []byte(strings.TrimSpace(s))
+						sort.Slice(b, func(i, j int) bool { return b[i] < b[j] })
+						return string(b)
+					}
+					orderOnly = left != right && canon(left) == canon(right)
+				}
+			}
+		}
 		sig["order_only"] = orderOnly
 		return sig
 	}
@@ -483,7 +501,7 @@ func runHist(cfg *config) error {
 		// (kind, signature of the unshrunk history), not per kind: a recorded finding that produces
 		// many failures of one kind (P8: duplicate rows after a fault in the push window) must not
 		// use up the examples and hide another cause of the same kind
-		pre, _ := json.Marshal(signature(h, kind))
+		pre, _ := json.Marshal(signature(h, kind, ps[0].Detail))
 		capKey := kind + "|" + string(pre)
 		failSigs[capKey]++
 		if failSigs[capKey] > 3 {
@@ -500,7 +518,7 @@ func runHist(cfg *config) error {
 			detail = ps2[0].Detail
 		}
 		res.Violations = append(res.Violations, Violation{Kind: kind, Detail: fmt.Sprintf("history %d (%s, %d clients, %d steps after shrinking): %s", i, g.Flavor, small.N, len(small.Steps), detail),
-			Replay: small, Sig: signature(small, kind)})
+			Replay: small, Sig: signature(small, kind, detail)})
 	}
 	res.Nontrivial = len(seen)
 	res.Rule = "random multi-client histories (flavors " + strings.Join(mode.flavors, "/") + ") executed on a real in-process server (memory DB, real RPC stack) with manual clients that follow client.Client step by step; non-trivial = at least 2 clients and 2 updates; distinct = distinct step lists; failing histories are shrunk by delta debugging"
